@@ -66,11 +66,8 @@ impl Default for Params {
 
 impl Params {
     fn pbkdf(&self) -> Result<argon2::Argon2<'static>, PasetoError> {
-        let mem = self.mem.get();
-        if !mem.is_multiple_of(1024) {
-            return Err(PasetoError::InvalidKey);
-        }
-        let mem = mem / 1024;
+        // Argon2 counts memory in KiB: like libsodium's crypto_pwhash, round the byte count down
+        let mem = self.mem.get() / 1024;
         let mem = u32::try_from(mem).map_err(|_| PasetoError::InvalidKey)?;
 
         let params = argon2::ParamsBuilder::new()
